@@ -25,6 +25,14 @@ EXTENDS Integers, Sequences, FiniteSets, TLC
 PubKeyStates  == {"absent", "garbage", "ecdsa", "rsa"}
 PrivKeyStates == {"absent", "badAny", "ok"}        \* badAny: an Any that does not unpack; ok: key matching pubKey's kind
 FrozenStates  == {"absent", "okSigned", "badSig", "badHashLen"}
+\* "badSig" is a CLASS: the frozen STH does not verify under the configured public key.  Verification reads the key, the
+\* three signed fields and the signature value; the STH fails when any ONE of them is not what went into the genuine
+\* signature, the others (in particular the signature bytes) being exactly those of a genuine STH.  The spellings name the
+\* component that differs ("sig": the signature bytes themselves; "key": genuinely signed, by another key of the same
+\* kind).  In products with other field groups the class stands for its spellings (the harness rotates through them);
+\* FrozenSweep (MCLogConfig) presents every spelling by name.
+BadSigSpellings == {"badSig:timestamp", "badSig:size", "badSig:root", "badSig:sig", "badSig:key"}
+FrozenFine    == FrozenStates \cup BadSigSpellings
 \* A NotAfter bound is absent or a protobuf Timestamp, i.e. a PAIR (seconds, nanos): the instant is seconds + nanos/10^9,
 \* nanos always counting forward (also before the epoch).  Both components are ranks of classes of concrete values:
 SecRanks      == -2..3   \* -2: before year 1 (out of range); -1: before the epoch; 0: the epoch second; 1 < 2: later seconds;
